@@ -3,7 +3,11 @@ import MdVerif.Props.C10X
 open MdVerif.NoCtlX
 
 #print axioms C10X_inline_engine
-#print axioms C10X_inline_ids_bounded
 #print axioms C10X_nl_entry
+#print axioms C10X_wikilink_entry
+#print axioms C10X_footnote_entry
+#print axioms C10X_inline_ids_bounded
 #print axioms C10X_inline_all_visited_run
+#print axioms C10X_partial_inline_flags
 #print axioms C10X_partial_nl2br
+#print axioms C10X_blank_wikilink_leak
